@@ -28,7 +28,7 @@ def tasks(tier):
           W('no_call.2', 'c18_no_call', nseq=2), W('no_call.4', 'c18_no_call', nseq=4)]
     if tier == 'thorough':
         ts += [W('projection_inbreeding.n5_k4', 'c18_projection_inbreeding', n=5, k=4),
-               W('projection_inbreeding.n6_k6', 'c18_projection_inbreeding', n=6, k=6),
+               W('projection_inbreeding.n6_k2', 'c18_projection_inbreeding', n=6, k=2),
                W('enough_covered.12_5', 'c18_enough_covered', nseq=12, nsub=5),
                W('projection_matrix.6_4', 'c18_projection_matrix', nseq=6, nsub=4)]
     return ts + bounded_tasks('C18', tier)
